@@ -48,6 +48,12 @@ def obligations(tier, ctx):
             obs.append(Ob(name="flood_" + "_".join(map(str, kt)), params=[(f"g{i}", "int") for i in range(n)] + [("T", "int"), ("c", "int"), ("ra", "int")],
                           pre=[f"0 <= g{i} <= 70" for i in range(n)] + [f"1 <= T <= {T_MAX}", f"0 <= c <= {C_MAX}", f"-1 <= ra <= {max(nprog - 1, -1)}"],
                           call=f"H.traffic({kt!r}, {gl}, T, c, ra)", real=f"H.traffic_real({kt!r}, {gl}, T, c, ra)", backend="P", timeout=900, family="floods (4 messages, gaps 0..70 ticks)"))
+    for kt in [(0,), (4, 0), ()]:
+        n = len(kt)
+        gl = "[" + ", ".join(f"g{i}" for i in range(n)) + "]"
+        obs.append(Ob(name="ids_" + ("_".join(map(str, kt)) or "none"), params=[(f"g{i}", "int") for i in range(n)] + [("T", "int"), ("c", "int"), ("idsel", "int")],
+                      pre=[f"0 <= g{i} <= {GAP_MAX}" for i in range(n)] + [f"1 <= T <= {T_MAX}", f"0 <= c <= {C_MAX}", "0 <= idsel <= 4"],
+                      call=f"H.traffic_id({kt!r}, {gl}, T, c, idsel)", backend="P", timeout=300, family="other request ids (integers beyond 2^53, digit strings)"))
     for kt in [(), (0,), (5, 0)]:
         n = len(kt)
         gl = "[" + ", ".join(f"g{i}" for i in range(n)) + "]"
